@@ -51,6 +51,62 @@ CLAIMS = {
              "(exhaustive over reduced alphabets) but not proved: partial.",
         ref="DESIGN.md 4.10", technique="Rocq proof (tiling/reporting) + exhaustive differential lexing + extracted text predicate",
         note=NOTE + "Not proved: the token-text clause (tested). Modelled: lexer.py completely."),
+    "C11": dict(
+        text="Theorems (Props/C11.v) for the finite families of Spec/CConst.v - the property's own bounded quantifier: every integer "
+             "constant with any first digit, tails up to length 2 over reduced digit alphabets containing b B e E, all four bases, "
+             "EVERY suffix of the source's table (regenerated on every run), decimal and hexadecimal floats with empty integer or "
+             "fraction parts and every exponent sign, every escape form in character and string constants with every prefix, each "
+             "followed by each delimiter: the first step of the lexer model yields ONE token of the right type spanning exactly the "
+             "constant with no diagnostic; every member of the malformed families M1..M15 gets its diagnostic located in the "
+             "constant.  Proved by evaluating the model inside Coq on every member (vm_compute, bound in the statement).  Six shapes "
+             "of valid constants are refuted (witness theorems; known findings) and excluded by boolean guards.  The same families "
+             "are replayed on the implementation (model verdict compared = correspondence; expected verdict = the property), plus "
+             "random constants with digit strings up to 14 and the exhaustive lexer correspondence on numeric/quote alphabets.  "
+             "Unbounded digit strings are tested, not proved.",
+        ref="DESIGN.md 4.11", technique="Rocq proof by complete evaluation over finite constant families (vm_compute) + differential lexing + family replay on the implementation",
+        note=NOTE + "Modelled: lexer.py completely. Partial: the theorems are for bounded digit strings (the property's quantifier is "
+             "bounded too); longer constants are only tested."),
+    "C14": dict(
+        text="Theorems (all base names whose File.type is .h, all comment/blank prefixes and suffixes, all bodies with properly nested "
+             "conditionals, any statement trace): the correct guard (guard_of base = ASCII upper-casing and . -> _, proved equal to "
+             "Python's on ASCII against a live table) produces no HEADER_PROT_* diagnostic; each mutation G1..G6 produces its code "
+             "(NAME, UPPER, NODEF, MULT, ALL, ALL_AF); files of another type never produce any (G8); G7 (no guard at all) is refuted "
+             "by witness (known finding).  The proofs are about prot_run, a Gallina function regenerated statement by statement from "
+             "CheckPreprocessorProtection.run on every run (fail closed), and about IsPreprocessorStatement's effect taken from a "
+             "generated directive table; helpers are pinned by AST fingerprints.  Correspondence: the real statement sequence, "
+             "preprocessor state and emitted codes after every statement vs the model run inside Coq on the abstracted trace.  "
+             "Search: 42 header + guard + body x base names over [a-z0-9_.] x {correct, G1..G8} x placements on the implementation.",
+        ref="DESIGN.md 4.14", technique="Rocq proof over a check translated from source + per-statement state correspondence + mutation search",
+        note=NOTE + "Hand-written and validated by correspondence: the abstraction of real statements into the model's statement type, "
+             "history append, File.type. Not proved: diagnostic positions."),
+    "C15": dict(
+        text="Theorems over ALL finite directory trees, current directories and argument lists, about Model/Select.v (glob patterns, "
+             "suffix tuple, messages and exit codes regenerated from __main__.py on every run; the selection code pinned by "
+             "fingerprint): only regular files ending in .c/.h that are named or lie below a named directory are checked (sound, "
+             "also with --use-gitignore); a missing path aborts with status 1 and nothing is checked; a named file with another "
+             "suffix gets the rejection message and is not checked; no argument = the argument `.`; with --use-gitignore exactly "
+             "the files the git oracle reports ignored are removed; files are reported under their base name; the work list "
+             "terminates.  Completeness and once-per-mention are proved under a guard that excludes the two recorded findings "
+             "(dot-names below a named directory; directories named *.c/*.h), both refuted by witness.  Correspondence: random "
+             "trees x argument lists through the real main() and through the model inside Coq (selected names in order, messages, "
+             "abort path, exit status); the property is evaluated on the real output against an independent specification.",
+        ref="DESIGN.md 4.15", technique="Rocq proof over an abstract file system + differential runs of main() on generated trees",
+        note=NOTE + "Modelled, not verified: os.scandir order, CPython glob/fnmatch/pathlib, git check-ignore (oracle). Symlinks, "
+             "special files and glob-magic characters in directory arguments are outside the model."),
+    "C16": dict(
+        text="Theorems: for every rule oracle that does not read the debug level, every token count and every pair of debug levels, "
+             "two runs that both reach a verdict have equal diagnostics and verdict, and a verdict at debug 0 is the verdict at "
+             "every level; -R sets skip_define iff its last word is exactly CheckDefine, and a run with it equals the run without "
+             "it minus exactly the diagnostics of three codes; both formats show the same views for all file lists, the humanized "
+             "text is a function of the views and the colour switch, stripping colour sequences gives the uncoloured text, -o is "
+             "never read; inline content yields the same File and Context as a file of that name when it has no CR.  Refuted "
+             "(known findings): -R CheckDefine silences the macro-name and function-like-macro codes too; CR content differs "
+             "inline vs file.  The hypotheses on the oracle are justified by reader tables (every syntactic read of debug / "
+             "skip_define / the presentation options) regenerated from the source on every run and proved equal to reviewed lists "
+             "(fail closed); they are not proved of the rule bodies.  Search: conforming and violating files x option sets through "
+             "the real main(), both formats parsed back and compared with the baseline run.",
+        ref="DESIGN.md 4.16", technique="Rocq proof (generic engine + option model, reader tables from source) + option-matrix differential runs of main()",
+        note=NOTE + "Modelled, not verified: argparse, open()'s decoding. Tested only: that printed text parses back to the views."),
     "C05": dict(
         text="(a) Theorem for every string: the tokenizer model terminates (its fuel, |src|+1 steps each consuming >= 1 raw character, is "
              "never exhausted) and consumes the whole input; that no exception other than the documented iteration cap escapes is "
